@@ -1,8 +1,177 @@
 import SigmaVerif.Model.Coll
+import SigmaVerif.Lemmas.Coll
+/-!
+# C09 — rule references resolve the same way whatever the document order
+
+`order` (`SigmaCollection._sort_by_references`) emits every rule exactly once, every referenced rule
+before the rules referring to it, and otherwise keeps the document order.  Key lookup, success of
+reference resolution and the output flag of a rule do not depend on the position of the documents
+in the collection (for collections in which no key is carried by two documents).
+
+Definitions used (in `Lemmas/Coll.lean`):
+* `Closed n g := ∀ v, v < n → ∀ w ∈ g v, w < n`
+* `Acyclic n g := ∃ r : Nat → Nat, ∀ v, v < n → ∀ w ∈ g v, r w < r v`
+* `Reach g a b` — reflexive-transitive closure of "`a` refers to `b`"
+* `KeysUnique docs := docs.Pairwise (fun a b => ∀ k ∈ a.keys, k ∉ b.keys)`
+* `Suppressed docs d := ∃ d' ∈ docs, d'.generate = false ∧ ∃ k ∈ d'.refs, k ∈ d.keys`
+* `dflt : Doc := ⟨[], [], false⟩` (the default of the model's `getD` calls)
+-/
 namespace SigmaVerif.Props.C09
 open SigmaVerif.Coll
 
-/-- without references the document order is kept (sanity instance; the general theorems follow) -/
-theorem order_example : order 5 (graphFn [[1, 3], [], [0, 4], [], []]) = [1, 3, 0, 4, 2] := by decide
+/-! ## The ordering -/
+
+/-- every rule is emitted exactly once (cycles or not; the fuel `n + 1` always suffices) -/
+theorem order_perm (n : Nat) (g : Nat → List Nat) (hc : Closed n g) :
+    (order n g).Perm (List.range n) := by
+  obtain ⟨hnd, hmem⟩ := order_spec hc
+  exact (List.perm_ext_iff_of_nodup hnd List.nodup_range).2 (fun a => by simp [hmem])
+
+theorem order_nodup (n : Nat) (g : Nat → List Nat) (hc : Closed n g) : (order n g).Nodup :=
+  (order_spec hc).1
+
+theorem order_length (n : Nat) (g : Nat → List Nat) (hc : Closed n g) :
+    (order n g).length = n := by
+  simpa using (order_perm n g hc).length_eq
+
+theorem order_mem (n : Nat) (g : Nat → List Nat) (hc : Closed n g) (v : Nat) :
+    v ∈ order n g ↔ v < n :=
+  (order_spec hc).2 v
+
+/-- every referenced rule comes before the rule that refers to it -/
+theorem order_topological (n : Nat) (g : Nat → List Nat) (hc : Closed n g)
+    (hacyc : Acyclic n g) :
+    ∀ v, v < n → ∀ w ∈ g v, (order n g).idxOf w < (order n g).idxOf v := by
+  obtain ⟨r, hr⟩ := hacyc
+  intro v hv w hw
+  exact order_topo hc hr v ((order_spec hc).2 v |>.2 hv) w hw
+
+/-- ... also transitively -/
+theorem order_topological_trans (n : Nat) (g : Nat → List Nat) (hc : Closed n g)
+    (hacyc : Acyclic n g) (v w : Nat) (hv : v < n) (h : Reach g v w) :
+    (order n g).idxOf w ≤ (order n g).idxOf v := by
+  induction h with
+  | refl => exact Nat.le_refl _
+  | @step a b c hab _ ih =>
+    have h1 := order_topological n g hc hacyc a hv b hab
+    have h2 := ih (hc a hv b hab)
+    omega
+
+/-- `Acyclic` is meaningful: it holds exactly if no rule is (transitively) referenced by a rule
+it refers to -/
+theorem acyclic_iff_no_cycle (n : Nat) (g : Nat → List Nat) (hc : Closed n g) :
+    Acyclic n g ↔ ∀ v, v < n → ∀ w ∈ g v, ¬ Reach g w v := by
+  constructor
+  · rintro ⟨r, hr⟩ v hv w hw h
+    have h1 := hr v hv w hw
+    have h2 := reach_rank_le hc hr h (hc v hv w hw)
+    omega
+  · exact acyclic_of_no_cycle
+
+/-- without references the document order is kept -/
+theorem order_stable_no_refs (n : Nat) (g : Nat → List Nat) (hg : ∀ v, v < n → g v = []) :
+    order n g = List.range n := by
+  unfold order
+  rw [fold_noref hg n n (Nat.le_refl n)]
+
+/-- Rules keep their relative document order unless a reference forces otherwise: a rule `v` is
+emitted after every rule `u` preceding it in the collection, unless `v` is referenced
+(transitively) by `u` or by a rule before `u`. -/
+theorem order_stable (n : Nat) (g : Nat → List Nat) (hc : Closed n g) (u v : Nat) (huv : u < v)
+    (hv : v < n) (hnr : ∀ u', u' ≤ u → ¬ Reach g u' v) :
+    (order n g).idxOf u < (order n g).idxOf v :=
+  order_stable_of_not_reach hc u v huv hv hnr
+
+/-- in particular a rule nobody refers to stays behind all rules that precede it -/
+theorem order_stable_unreferenced (n : Nat) (g : Nat → List Nat) (hc : Closed n g) (u v : Nat)
+    (huv : u < v) (hv : v < n) (hno : ∀ x, x < n → v ∉ g x) :
+    (order n g).idxOf u < (order n g).idxOf v := by
+  refine order_stable n g hc u v huv hv ?_
+  intro u' hu' hreach
+  rcases hreach.cases_tail with rfl | ⟨b, hb, hvb⟩
+  · omega
+  · exact hno b (hb.lt hc (by omega)) hvb
+
+/-! ## Resolution does not depend on the document order -/
+
+/-- the same *document* is found for a key, whatever its position -/
+theorem lookup_perm (docs docs' : List Doc) (hu : KeysUnique docs) (hp : docs.Perm docs')
+    (k : Nat) :
+    (lookup docs k).map (docs.getD · dflt) = (lookup docs' k).map (docs'.getD · dflt) := by
+  apply Option.ext
+  intro d
+  rw [lookup_map_eq_some hu, lookup_map_eq_some (hu.perm hp), hp.mem_iff]
+
+/-- the model's lookup: the *last* document carrying the key is found -/
+theorem lookup_last_wins (docs : List Doc) (k i : Nat) (h : lookup docs k = some i) :
+    (i < docs.length ∧ k ∈ (docs.getD i dflt).keys) ∧
+    ∀ j, i < j → j < docs.length → k ∉ (docs.getD j dflt).keys :=
+  ⟨lookup_some h, lookup_last h⟩
+
+/-- uniqueness of keys is needed for `lookup_perm`: with a duplicated key the document found
+depends on the document order -/
+theorem lookup_perm_needs_unique :
+    ∃ (docs docs' : List Doc) (k : Nat), docs.Perm docs' ∧
+      (lookup docs k).map (docs.getD · dflt) ≠ (lookup docs' k).map (docs'.getD · dflt) :=
+  ⟨[⟨[1], [], false⟩, ⟨[1], [], true⟩], [⟨[1], [], true⟩, ⟨[1], [], false⟩], 1,
+    List.Perm.swap _ _ _, by decide⟩
+
+/-- the references of a rule resolve to the same list of documents -/
+theorem resolve_doc_perm (docs docs' : List Doc) (hu : KeysUnique docs) (hp : docs.Perm docs')
+    (d : Doc) :
+    (resolveDoc docs d).map (List.map (docs.getD · dflt))
+      = (resolveDoc docs' d).map (List.map (docs'.getD · dflt)) := by
+  unfold resolveDoc
+  rw [mapM_option_map, mapM_option_map]
+  congr 1
+  funext k
+  exact lookup_perm docs docs' hu hp k
+
+/-- loading succeeds or fails identically (no uniqueness assumption needed) -/
+theorem resolve_success_perm (docs docs' : List Doc) (hp : docs.Perm docs') :
+    (resolveAll docs).isSome = (resolveAll docs').isSome := by
+  rw [Bool.eq_iff_iff, resolveAll_isSome, resolveAll_isSome]
+  simp only [hp.mem_iff]
+
+/-- a reference to a rule that is not in the collection makes loading fail -/
+theorem missing_ref_fails (docs : List Doc) (d : Doc) (k : Nat) (hd : d ∈ docs)
+    (hk : k ∈ d.refs) (hmiss : ∀ d' ∈ docs, k ∉ d'.keys) : resolveAll docs = none := by
+  cases h : resolveAll docs with
+  | none => rfl
+  | some graph =>
+    have := resolveAll_isSome.1 (by simp [h]) d hd k hk
+    obtain ⟨d', hd', hk'⟩ := this
+    exact absurd hk' (hmiss d' hd')
+
+/-- conversely, loading succeeds when every reference has a target -/
+theorem resolve_succeeds_iff (docs : List Doc) :
+    (resolveAll docs).isSome ↔ ∀ d ∈ docs, ∀ k ∈ d.refs, ∃ d' ∈ docs, k ∈ d'.keys :=
+  resolveAll_isSome
+
+/-- the output flag of rule `i` is off exactly if a correlation rule without `generate` refers to
+one of its keys -/
+theorem output_flag_exact (docs : List Doc) (graph : List (List Nat)) (i : Nat)
+    (hu : KeysUnique docs) (hr : resolveAll docs = some graph) (hi : i < docs.length) :
+    outputFlag docs graph i = true ↔ ¬ Suppressed docs (docs.getD i dflt) :=
+  outputFlag_eq_true_iff hu hr hi
+
+/-- ... hence it does not depend on the positions of the documents -/
+theorem output_flag_perm (docs docs' : List Doc) (graph graph' : List (List Nat)) (i i' : Nat)
+    (hu : KeysUnique docs) (hp : docs.Perm docs')
+    (hr : resolveAll docs = some graph) (hr' : resolveAll docs' = some graph')
+    (hi : i < docs.length) (hi' : i' < docs'.length)
+    (hd : docs.getD i dflt = docs'.getD i' dflt) :
+    outputFlag docs graph i = outputFlag docs' graph' i' := by
+  rw [Bool.eq_iff_iff, output_flag_exact docs graph i hu hr hi,
+    output_flag_exact docs' graph' i' (hu.perm hp) hr' hi', hd, Suppressed.perm hp]
+
+/-! ## Non-vacuity -/
+
+/-- the example collection: rules 0 and 2 are correlation rules (2 refers to 0), the others are
+plain; it is closed and acyclic, and ordered `[1, 3, 0, 4, 2]` -/
+example : Closed 5 (graphFn [[1,3],[],[0,4],[],[]]) ∧ Acyclic 5 (graphFn [[1,3],[],[0,4],[],[]]) ∧
+    order 5 (graphFn [[1,3],[],[0,4],[],[]]) = [1, 3, 0, 4, 2] := by
+  refine ⟨by unfold Closed; decide, ⟨fun v => if v = 0 then 1 else if v = 2 then 2 else 0, by decide⟩,
+    by decide⟩
 
 end SigmaVerif.Props.C09
